@@ -77,6 +77,10 @@ func runC07(c *core.Ctx) {
 		runHugeTree(c, h, hugeN(c.Tier), func(m *KVMon[int, int]) { m.Balance = true })
 		return
 	}
+	if j := c.Index - len(exhaustivePlans(c.Tier)) - hugeCases; j >= 0 && j < wideBTreeCases {
+		runWideBTree(c, j, func(m *KVMon[int, int]) { m.Balance = true })
+		return
+	}
 	runBalanceCase(c, balKinds[c.Index%len(balKinds)])
 }
 
@@ -106,6 +110,7 @@ func init() {
 				f.atLeast("walk:"+k, 30000)
 			}
 			exhaustiveFloors(tier, f)
+			f.atLeast("obs:wide-btree-cases", wideBTreeCases)
 			f.atLeast("walk:BTree-height>=4", 1000)
 			f.atLeast("walk:RedBlackTree-ratio>1.5", 100)
 			return f.missing
